@@ -53,6 +53,18 @@ def programs(ck):
     add('recursion:' + pr.info['shape'], pr.text(), preds)
   # F2-style: request an internal predicate of an iterative plan
   add('iterative-internal', '@Engine("sqlite");\n@Recursive(A, 30);\nA(0);\nA(x + 1) :- B(x), x < 50;\nB(x) :- A(x);\n', ['A', 'B', 'A_ifr5', 'B_ifr4'])
+  # diamond-mode recursion (DuckDB dialect, compile only): components of 3-4 members with symmetric reads
+  for i in range(ck.budget(10, 80)):
+    members = ['A', 'B', 'C', 'D'][:rng.choice([3, 3, 4])]
+    main = rng.choice(members)
+    lines = ['@Engine("duckdb");', '@Recursive(%s, %d, mode: "diamond");' % (main, rng.choice([3, 5, 10])), '%s() Max= 0;' % main]
+    for m in members:
+      others = [o for o in members if o != m]
+      reads = rng.sample(others, rng.randint(1, len(others)))
+      for o in reads:
+        lines.append('%s() Max= %s() + %d;' % (m, o, rng.randint(1, 3)))
+    lines.append('Test() Max= %s;' % ' + '.join('%s()' % m for m in rng.sample(members, rng.randint(1, len(members)))))
+    add('diamond', '\n'.join(lines) + '\n', ['Test', rng.choice(members)])
   for i in range(ck.budget(8, 100)):
     pr = c04.gen_case(rng)
     add('functors', pr.text(), pr.query[:4])
